@@ -433,6 +433,7 @@ def main(out_path):
         with open(out_path, encoding='utf-8') as f:
             old = f.read()
     if old != text:
+        os.makedirs(os.path.dirname(out_path), exist_ok=True)   # a fresh checkout has no coq/gen (its only file is generated)
         tmp = out_path + '.tmp.%d' % os.getpid()
         with open(tmp, 'w', encoding='utf-8') as f:
             f.write(text)
